@@ -272,7 +272,7 @@ def run(ctx, out):
                 'dataclass configurations: layouts (struct/tuple in/out), class rename styles, aliases, in_names, rename, out_name, '
                 'kw-only, excluded fields (skipped when the output form is not enabled on input). Non-trivial = non-leaf type.')
     into_items = []
-    cases = convprop.run(ctx, out, PROP, monitor_factory(into_items), cfg={'weights': {'class': 3.5, 'union': 1.5, 'tagged': 1.2, 'std': 1.0}})
+    cases = convprop.run(ctx, out, PROP, monitor_factory(into_items), cfg={'naming_density': 2.5, 'weights': {'class': 4.5, 'union': 1.5, 'tagged': 1.2, 'std': 1.0}})
     if any(f in ctx['failed_files'] for f in ('Model/Into.v', 'Run/AgreeInto.v')):
         out.oblige('corr_into', False, 'serialiser model does not build')
         return
